@@ -47,6 +47,13 @@ Theorem C19_clone_has_its_own_tables : Gen.K_clone.k_clone_copies_datatypes = tr
 Proof. split; reflexivity. Qed.
 Print Assumptions C19_clone_has_its_own_tables.
 
+(* the copy is constructed with the placeholder flag and the version of the original (read from the constructor call in
+   the source): it is written like the original *)
+Theorem C19_clone_keeps_kind_and_version :
+  Gen.K_clone.k_clone_keeps_virtual = true /\ Gen.K_clone.k_clone_keeps_version = true.
+Proof. split; reflexivity. Qed.
+Print Assumptions C19_clone_keeps_kind_and_version.
+
 (* non-vacuity: a path-like line with a list of oriented references, a list of CIGARs, a JSON tag and an integer tag *)
 Definition demo : pline :=
   [mkField "segment_names" true false VList (Node 1 "list" [Node 2 "ol" [Leaf "A+"]; Node 3 "ol" [Leaf "B-"]]);
